@@ -20,6 +20,19 @@ open Influx.Generated.Meta (MinNanoTime MaxNanoTime Deleted)
 /-- timestamps a point can carry (`models.CheckTime`) -/
 def inRange (t : Int) : Bool := decide (MinNanoTime ≤ t) && decide (t ≤ MaxNanoTime)
 
+/-- the quantifier domain, per operation: in-range timestamps, positive shard group durations,
+    deletion marks at wall-clock times, and cutoffs `now − retention period` that lie in the past
+    (before the clock `modelNow` of the model; the harness uses cutoffs before its own clock) -/
+def opInDomain : Op → Bool
+  | .rp _ _ sgd raw => !raw || decide (sgd > 0)
+  | .sgd _ _ d => decide (d > 0)
+  | .csg _ _ t => inRange t
+  | .ms _ _ cutoff ts => ts.all inRange && (match cutoff with
+      | some a => decide (a < modelNow)
+      | none => true)
+  | .setdel _ _ _ a => decide (0 < a) && decide (a ≤ MaxNanoTime)
+  | _ => true
+
 /-- "older than now minus the retention period" for one timestamp -/
 def tooOld (cutoff : Option Int) (t : Int) : Bool :=
   match cutoff with
@@ -77,12 +90,13 @@ def deletionOK (cs : List (String × String × Int)) (log : List Ev)
 
 /-- the statement on one (operation, answer) pair -/
 def holdsOp : Op × Obs → Bool
-  | (.ms _ _ cutoff ts, .mapping m) => !ts.all inRange || writeOK cutoff ts m
+  | (.ms _ _ cutoff ts, .mapping m) => writeOK cutoff ts m
   | (.exp _ _ D t, .expired ids gs) => expiredOK D t ids gs
   | (.dc cs, .dc log pre loc) => deletionOK cs log pre loc
   | _ => true
 
-/-- the statement on one case -/
-def holdsOn (tr : List (Op × Obs)) : Bool := tr.all holdsOp
+/-- the statement on one case (a case that leaves the quantifier domain is not judged) -/
+def holdsOn (tr : List (Op × Obs)) : Bool :=
+  !(tr.all fun p => opInDomain p.1) || tr.all holdsOp
 
 end Influx.Spec.C19
